@@ -100,16 +100,66 @@ def exceededRes (bind : String → St → Option St) (s0 : St) : Res :=
   | some s' => ⟨[.probe, .ans s'], .done⟩
   | .none => ⟨[.probe], .done⟩
 
+/-- a cut never leaves `call/1`. -/
+def finTop : Fin → Fin
+  | .cut => .done
+  | f => f
+
+/-- a solution `s` of the goal followed by the events `es` and the end `fin`; `rest` is the limited
+rest. If the model run ends right after the solution (`oof`) it is unknown whether a choice point
+is left: the solution is not delivered, the result stays undecided. -/
+def ansStep (bind : String → St → Option St) (s : St) (es : List Ev) (fin : Fin) (rest : Res) : Res :=
+  match es, fin with
+  | [], .oof => ⟨[], .oof⟩
+  | _, _ => emitAns bind (rAtom es fin) s rest
+
 /-- `b` = remaining budget. -/
 def limitGo (bind : String → St → Option St) (s0 : St) : Nat → List Ev → Fin → Res
-  | _, [], .cut => ⟨[], .done⟩
-  | _, [], fin => ⟨[], fin⟩
+  | _, [], fin => ⟨[], finTop fin⟩
   | 0, .tick :: _, _ => exceededRes bind s0
   | b+1, .tick :: es, fin => (limitGo bind s0 b es fin).cons .tick
   | 0, .probe :: _, _ => exceededRes bind s0
   | b+1, .probe :: es, fin => (limitGo bind s0 (b+1) es fin).cons .probe
-  | _, [.ans _], .oof => ⟨[], .oof⟩
-  | b, .ans s :: es, fin => emitAns bind (rAtom es fin) s (limitGo bind s0 b es fin)
+  | b, .ans s :: es, fin => ansStep bind s es fin (limitGo bind s0 b es fin)
+
+/-- `call(G)` with the extra argument `R` and no limit: every event is passed on. -/
+def passGo (bind : String → St → Option St) : List Ev → Fin → Res
+  | [], fin => ⟨[], finTop fin⟩
+  | .tick :: es, fin => (passGo bind es fin).cons .tick
+  | .probe :: es, fin => (passGo bind es fin).cons .probe
+  | .ans s :: es, fin => ansStep bind s es fin (passGo bind es fin)
+
+/-- does the limit fire on this trace with budget `b`? -/
+def fires : Nat → List Ev → Bool
+  | _, [] => false
+  | 0, .tick :: _ => true
+  | b+1, .tick :: es => fires b es
+  | 0, .probe :: _ => true
+  | b+1, .probe :: es => fires (b+1) es
+  | b, .ans _ :: es => fires b es
+
+/-- the events of the goal that are consumed before the limit fires (all of them if it does not). -/
+def passed : Nat → List Ev → List Ev
+  | _, [] => []
+  | 0, .tick :: _ => []
+  | b+1, .tick :: es => .tick :: passed b es
+  | 0, .probe :: _ => []
+  | b+1, .probe :: es => .probe :: passed (b+1) es
+  | b, .ans s :: es => .ans s :: passed b es
+
+/-- solutions delivered while a choice point is certainly left: `R = true`. -/
+def annotTrue (bind : String → St → Option St) : List Ev → List Ev
+  | [] => []
+  | .ans s :: es =>
+      match bind "true" s with
+      | some s' => .ans s' :: annotTrue bind es
+      | .none => annotTrue bind es
+  | e :: es => e :: annotTrue bind es
+
+def hasProbe : List Ev → Bool
+  | [] => false
+  | .probe :: _ => true
+  | _ :: es => hasProbe es
 
 /-- the trace of `call_with_inference_limit(G, L, R)` (after its own call) from the trace of
 `call(G)`. -/
